@@ -198,7 +198,16 @@ HV = {
                      "text/plain;;", "text;plain", "; charset=utf-8", ";", "text/plain; charset=", "text/plain; =",
                      "text/plain; =utf-8", "text/plain; a=b; c", "text/plain; a=b; c=d", "text/plain; charset=\"utf-8\"",
                      "multipart/form-data; boundary=\"a;b\"", "APPLICATION/JSON;Charset", "\xe9/\xe9; \xe9", "text/plain ; x = y ",
-                     "=", "a=b", "text/event-stream", "text/event-stream; foo"],
+                     "=", "a=b", "text/event-stream", "text/event-stream; foo"] + [
+                     # the charset parameter: codecs python knows, near misses, names only browsers know, codecs that are
+                     # not text encodings, empty / quoted / non-ASCII / repeated values
+                     "%s; charset=%s" % (mt, cs) for mt in ("text/plain", "application/json")
+                     for cs in ("utf-8", "UTF8", "latin1", "iso-8859-1", "utf-16", "ascii", "utf-8x", "utf-9", "utf8 ", " utf-8",
+                                "x-user-defined", "binary", "none", "undefined", "idna", "base64", "hex", "rot13", "zlib", "mbcs",
+                                "unicode_internal", "'utf-8'", "\"\"", "\xe9", "utf-8; charset=bogus", "bogus; charset=utf-8",
+                                "utf\x008", "a" * 300, "*", "../x", "%s")] + [
+                     "text/plain;charset=nope", "text/plain; CHARSET=NOPE", "text/plain; charset = nope", "text/plain; charset",
+                     "text/plain; xcharset=nope", "text/plain; charset=nope; q=1", "text/event-stream; charset=nope"],
     "Content-Length": ["3", "0", "abc", "-5", "+3", "1_0", "3.0", "0x3", "99999999999999999999", "9" * 4301, "3, 3", "1e3",
                        "\xb3", "3\xa0", "", "3 3", "03"],
     "Transfer-Encoding": ["chunked", "Chunked", "CHUNKED ", "gzip, chunked", "chunked, gzip", "identity", "", "chunked;q=1",
@@ -215,7 +224,9 @@ TARGETS = ["/", "*", "http://h/", "http://h:80/", "http://h:x/", "http://h:-1/",
 # ---- body family: what the layers above the parser do with a correctly framed body (json decoding in
 # Parsent.dictify for json content types or a dictable Patron)
 BODIES = [b"", b"{}", b"{\"a\": 1}", b"[1, 2", b"nul", b"\xff", b"{\"a\": \"\xe9\"}", b"\xe6\x97", b"\xef\xbb\xbf{}", b"\x00", b"{\"a\": \"\xc3\xa9\"}"]
-BODY_CT = ["application/json", "application/json; charset=utf-8", "text/plain", None]
+BODY_CT = ["application/json", "application/json; charset=utf-8", "text/plain", None,
+           "application/json; charset=latin1", "application/json; charset=utf-16", "application/json; charset=nope",
+           "text/plain; charset=nope"]
 
 
 def body_streams(kind):
@@ -295,7 +306,11 @@ class CHECK(core.Check):
             "responses in 1-4 receives, sometimes a cutoff; 'parser' cases: Requestant/Respondent fed the same damaged "
             "streams with lowered MAX_LINE_SIZE and close(); exhaustive: every hand-made malformed message, whole and "
             "under every single cut, against two good connections; non-trivial = a case in which a parser ended with "
-            "an error or a connection was closed; distinct by the whole case")
+            "an error or a connection was closed; also in every tier, completely: the header-value family (every "
+            "interpreted header with ordinary / odd / broken values, Content-Type parameters with known, unknown, "
+            "near-miss, non-text and malformed charset names), the body family (json / non-json / non-UTF-8 bodies "
+            "under each Content-Type incl. charset variants, every framing), event-stream responses; generated: "
+            "one-byte mutations of family values; distinct by the whole case")
     TRUSTED = ["correspondence: real serving.Valet (WSGI app answering 'ok' with Content-Length) whose incomers are "
                "harness doubles (rxbs, tx, txes, serviceTxes, shutclose) and whose servant's socket methods "
                "(serviceConnects, serviceReceivesAllIx, serviceTxesAllIx) are replaced; real clienting.Patron whose "
@@ -314,10 +329,9 @@ class CHECK(core.Check):
                "C32_serviceReqs_isolated / C32_porter_isolated are about the model of the connection tables (one association "
                "list for reqs / reps / ixes, application answering at once); timeouts, cutoff detection, TLS and the redirect "
                "logic (C34) are not modelled; redirect cases are judged by the oracle only",
-               "sequences of responses on one reused Respondent in which an event-stream response is followed by responses "
-               "without Content-Type need fixes/D32f-respondent-evented-per-message.patch (reported defect: RuntimeError "
-               "out of serviceAll, replay replays/C32-D32f-unpatched.json); that family is detected-and-skipped with a NOTE "
-               "until the patch is in the tree"]
+               "sequences of responses on one reused Respondent around an event-stream response are a complete family of the "
+               "check (added with the fix of reported defect D32f, replay replays/C32-D32f-unpatched.json); the "
+               "theorems speak of one parse() call from any safe state, which covers them"]
     TECHNIQUE = ("Lean 4 theorems (safety invariant 'nothing escaped parse()' kept by every step of the parser state "
                  "machine on arbitrary bytes; fold over the connection table equals a per-connection map) + "
                  "differential correspondence against the real Valet / Patron with socket doubles")
@@ -369,18 +383,8 @@ class CHECK(core.Check):
         ops = ["f" + hx(p) for p in c29.pieces_of(stream, cuts)] + (["c"] if close else [])
         yield {"type": "client", "method": "GET", "max": maxline, "ops": ops, "hv": "sse"}
 
-    _d32f = None
-
-    def _has_d32f(self):
-        """is fixes/D32f-respondent-evented-per-message.patch in the tree under test?  (reported defect of the unchanged
-        code, replay replays/C32-D32f-unpatched.json; its family of response sequences runs once the fix is there)"""
-        if CHECK._d32f is None:
-            CHECK._d32f = "escaped=~" in self.p29.impl(self._sse_sequence(0, 0))[0]
-            if not CHECK._d32f:
-                print("NOTE property=C32 fixes/D32f-respondent-evented-per-message.patch not applied: "
-                      "its case family is skipped in this run")
-        return CHECK._d32f
-
+    # sequences of responses on one reused Respondent around an event-stream response (family added with the fix of
+    # a reported defect, replay replays/C32-D32f-unpatched.json: .evented is decided per response)
     SEQ2 = [b"HTTP/1.1 200 OK\r\n\r\nd:\xff\n",        # read until close: nothing is left in the buffer when it fails
             b"HTTP/1.1 200 OK\r\nTransfer-Encoding: chunked\r\n\r\n4\r\nd:\xff\n\r\n0\r\n\r\n",
             b"HTTP/1.1 200 OK\r\nTransfer-Encoding: chunked\r\n\r\n8\r\ndata:y\n\n\r\n0\r\n\r\n",
@@ -509,10 +513,9 @@ class CHECK(core.Check):
                 for mx in (65536, 32):
                     for c in self._sse_cases(rng, body=body, framing=framing, maxline=mx):
                         yield c
-        if self._has_d32f():
-            for i in range(len(self.SEQ2)):
-                for j in range(len(self.SEQ3)):
-                    yield self._sse_sequence(i, j)
+        for i in range(len(self.SEQ2)):
+            for j in range(len(self.SEQ3)):
+                yield self._sse_sequence(i, j)
         if True:         # odd host names in Location
             for label, stream in redirect_streams(ODD_HOSTS):
                 yield {"type": "client", "method": "GET", "max": 65536, "redirectable": True, "oracle_only": True, "hv": label,
@@ -540,13 +543,47 @@ class CHECK(core.Check):
                 yield {"type": "client", "method": "GET", "max": 65536, "redirectable": True, "oracle_only": True, "hv": label,
                        "ops": ["f" + hx(stream), "f-", "f" + hx(b"HTTP/1.1 200 OK\r\nContent-Length: 2\r\n\r\nok")]}
 
+    def _hv_mutant(self, rng):
+        """a value of the header-value family with one byte replaced, inserted or deleted, to one of the four consumers"""
+        kind = rng.choice(["req", "rsp"])
+        name = rng.choice(sorted(HV))
+        v = bytearray(rng.choice(HV[name]).encode("iso-8859-1"))
+        pos = rng.randrange(len(v) + 1)
+        how = rng.random()
+        byte = rng.choice(b"x9 ;=,\"-_\xe9\x00\t:/") if rng.random() < 0.7 else rng.randrange(256)
+        if byte in (10, 13):
+            byte = 32
+        if how < 0.4 and pos < len(v):
+            v[pos] = byte
+        elif how < 0.75:
+            v.insert(pos, byte)
+        elif pos < len(v):
+            del v[pos]
+        ver = rng.choice(["HTTP/1.1", "HTTP/1.1", "HTTP/1.0"])
+        body = b"abc" if name == "Content-Length" else b"1\r\na\r\n0\r\n\r\n" if name == "Transfer-Encoding" else b""
+        head = ("POST /x %s" % ver) if kind == "req" else ("%s 200 OK" % ver)
+        stream = head.encode() + b"\r\n" + name.encode() + b": " + bytes(v) + b"\r\n\r\n" + body
+        label = "mut/%s/%s/%r" % (ver, name, bytes(v)[:24])
+        if kind == "req":
+            c = self._server_case(rng, bad=stream, cut=None) if rng.random() < 0.6 else self._porter_case(rng, stream)
+        elif rng.random() < 0.7:
+            c = {"type": "client", "method": rng.choice(["GET", "GET", "HEAD"]), "max": 65536,
+                 "ops": ["f" + hx(stream)] + (["c"] if rng.random() < 0.7 else [])}
+        else:
+            c = {"type": "parser", "kind": "rsp", "method": "GET", "max": 65536, "stream": hx(stream), "rest": "-",
+                 "cuts": [rng.randrange(len(stream))], "close": True, "next": False}
+        c["hv"] = label
+        return c
+
     def generate(self, rng, n, tier):
         for i in range(n):
             r = rng.random()
-            if r < 0.06:
+            if r < 0.05:
+                yield self._hv_mutant(rng)
+            elif r < 0.11:
                 for c in self._sse_cases(rng, maxline=rng.choice([65536, 65536, 24])):
                     yield c
-            elif r < 0.14:
+            elif r < 0.18:
                 bad = self._damaged(rng, "req")
                 while self.p29._outside("req", bad):
                     bad = self._damaged(rng, "req")
